@@ -495,6 +495,9 @@ func faultRule(c *Ctx, rule string, p *Prog, cio *connIO, fns map[*ssa.Function]
 						if len(pred.Instrs) == 0 || ff.EdgeInfeasible(pred, ph.Block()) {
 							continue
 						}
+						if unspill(ed) == ssa.Value(ph) {
+							continue // carried round a loop unchanged: nothing new enters here
+						}
 						if nonNilKnown {
 							// the merged value is known non-nil here: nil-carrying edges are not the
 							// ones taken, the others are non-nil; only a retry sentinel could be wrong
